@@ -31,6 +31,7 @@ func main() {
 	repo := flag.String("repo", "/repo", "repository root (the current working tree is analysed)")
 	verif := flag.String("verif", "", "verif dir (default: directory above the binary)")
 	replay := flag.String("replay", "", "violation report to re-evaluate")
+	outDir := flag.String("out", "", "write evidence/ and reports/ below this directory instead of the verif dir (used by the mutant self-test)")
 	goarch := flag.String("goarch", "amd64", "GOARCH to analyse")
 	list := flag.Bool("list", false, "list properties")
 	dump := flag.String("dump", "", "development aid: rel/pkg:Func — print the traces of a function")
@@ -78,8 +79,11 @@ func main() {
 		}
 		overlay[filepath.Join(*repo, f)] = b
 	}
+	outDirGlobal = *outDir
 	os.Exit(runProperty(p, *tier, *repo, *verif, *goarch, seed, overlay))
 }
+
+var outDirGlobal string
 
 func isFlagSet(name string) bool {
 	set := false
